@@ -1,6 +1,7 @@
 package main
 
 import (
+	"go/types"
 	"fmt"
 	"strings"
 
@@ -71,6 +72,7 @@ func init() {
 			a.tlvLoopComplete("S.tlv-loop")
 			a.checkSignPolarity()
 			a.pickKeysTable()
+			a.headerIsReceived("L.header-raw")
 		})
 }
 
@@ -472,4 +474,102 @@ func (a *An) tlvLoopComplete(rule string) {
 			"the loop over the TLVs of a message can be left early ("+why+"): TLVs after that point (e.g. a disconnect) are never acted upon")
 	}
 	a.R.Floor(rule, 2)
+}
+
+// headerIsReceived: the header bytes that enter the MAC are the received bytes themselves: each version's
+// parseMessageHeader returns, on success, a prefix slice msg[:n] of its input (not a rebuilt header), and the value
+// travels unchanged from there to checkSign.
+func (a *An) headerIsReceived(rule string) {
+	R := a.R
+	sliceOfParam := func(v ssa.Value, f *ssa.Function) (bool, string) {
+		sl, ok := v.(*ssa.Slice)
+		if !ok {
+			return false, a.C.Term(v)
+		}
+		p, isP := sl.X.(*ssa.Parameter)
+		if !isP || sl.Low != nil && !isZeroConst(sl.Low) {
+			return false, a.C.Term(v)
+		}
+		if t, isS := p.Type().Underlying().(*types.Slice); !isS || t.Elem().String() != "byte" && t.Elem().String() != "uint8" {
+			return false, a.C.Term(v)
+		}
+		return true, a.C.Term(v)
+	}
+	n := 0
+	for _, name := range []string{"(otrV2).parseMessageHeader", "(otrV3).parseMessageHeader"} {
+		f := a.MustFn(name)
+		if f == nil {
+			continue
+		}
+		for _, r := range a.returnsOf(f) {
+			if len(r.Results) != 3 || !isNilConst(r.Results[2]) {
+				continue
+			}
+			n++
+			ok, t := sliceOfParam(r.Results[0], f)
+			R.Check(ok, rule, name+"|header", "the header handed on is a prefix slice of the received message", a.C.InstrPos(r), "it is "+t+": the MAC is then computed over bytes the receiver built itself, so changes to the received header go unnoticed")
+		}
+	}
+	R.Check(n >= 2, rule, "parseMessageHeader|returns", "success returns of both header parsers found", "", fmt.Sprintf("%d", n))
+	// hops: the first result / the header parameter is passed on as it is
+	passes := func(fname, callee string, argIdx int, from func(v ssa.Value, f *ssa.Function) bool, what string) {
+		f := a.MustFn(fname)
+		if f == nil {
+			return
+		}
+		cs := a.CallsIn(f, callee)
+		R.Check(len(cs) >= 1, rule, fname+"|calls|"+callee, fname+" calls "+callee, a.C.Pos(f.Pos()), "no call")
+		for _, c := range cs {
+			args := c.Common().Args
+			if argIdx >= len(args) {
+				continue
+			}
+			v := resolveLocal(args[argIdx])
+			R.Check(from(v, f), rule, fname+"|"+callee+"|header", what, a.C.InstrPos(c), "passes "+a.C.Term(args[argIdx]))
+		}
+	}
+	isParam := func(i int) func(v ssa.Value, f *ssa.Function) bool {
+		return func(v ssa.Value, f *ssa.Function) bool {
+			p, ok := v.(*ssa.Parameter)
+			return ok && paramIndex(p) == i
+		}
+	}
+	firstResultOf := func(callee string) func(v ssa.Value, f *ssa.Function) bool {
+		return func(v ssa.Value, f *ssa.Function) bool {
+			ex, ok := v.(*ssa.Extract)
+			if !ok || ex.Index != 0 {
+				return false
+			}
+			c, isC := ex.Tuple.(*ssa.Call)
+			return isC && a.F.callName(c) == callee
+		}
+	}
+	passes("(*Conversation).receiveDecoded", "(*Conversation).receiveDataMessage", 1, firstResultOf("(*Conversation).parseMessageHeader"), "the header handed to the data-message handler is the one parseMessageHeader returned")
+	passes("(*Conversation).receiveDataMessage", "(*Conversation).processDataMessage", 1, isParam(1), "header passed on unchanged")
+	passes("(*Conversation).processDataMessage", "(*Conversation).processDataMessageWithRawErrors", 1, isParam(1), "header passed on unchanged")
+	passes("(*Conversation).processDataMessageWithRawErrors", "(dataMsg).checkSign", 2, isParam(1), "the MAC check gets the received header")
+	if f := a.MustFn("(*Conversation).parseMessageHeader"); f != nil {
+		for _, r := range a.returnsOf(f) {
+			ex, ok := r.Results[0].(*ssa.Extract)
+			good := false
+			if ok && ex.Index == 0 {
+				if c, isC := ex.Tuple.(*ssa.Call); isC && len(c.Call.Args) >= 2 {
+					last := c.Call.Args[len(c.Call.Args)-1]
+					if ct, isCT := last.(*ssa.ChangeType); isCT {
+						last = ct.X
+					}
+					if p, isP := last.(*ssa.Parameter); isP && paramIndex(p) == 1 {
+						good = true
+					}
+				}
+			}
+			R.Check(good, rule, "(*Conversation).parseMessageHeader|delegates", "the version's parser is applied to the received message and its header result returned as it is", a.C.InstrPos(r), "returns "+a.C.Term(r.Results[0]))
+		}
+	}
+	R.Floor(rule, 9)
+}
+
+func isZeroConst(v ssa.Value) bool {
+	k, ok := v.(*ssa.Const)
+	return ok && k.Value != nil && k.Value.String() == "0"
 }
